@@ -463,6 +463,14 @@ def driverStep (d : D) (line : String) : D × String :=
       let (d', e) := secExtent d i
       (d', match e with | some (a, z) => s!"{a} {z}" | none => "- -")
     | none => (d, "bad-op")
+  | ["reload", xs, ss] =>
+    -- save + load of the IR: the listed intervals and sections are new
+    -- objects with the same structure and fresh (unbuilt) lazy indexes
+    match readIds xs, readIds ss with
+    | some bis, some secs =>
+      ({ d with bis := d.bis.map (fun x => if x.id ∈ bis then { x with lz := {} } else x),
+                secs := d.secs.map (fun s => if s.id ∈ secs then { s with lz := {} } else s) }, "ok")
+    | _, _ => (d, "bad-op")
   | ["pending", kind, x] =>
     -- diagnostics: number of pending events / whether the tree exists
     match x.toNat? with
